@@ -18,7 +18,8 @@ func init() {
 	register(&Property{ID: "C14", Rule: "episodes = one lifecycle call sequence (length 1-4 sampled uniformly from the alphabet, or 5-12 random) x {with/without context} x {expiry} x {idle, jobs pending, jobs in flight} x {settled after every call, back-to-back}; non-trivial = >=2 lifecycle calls and >=1 library context switch; distinct = hash of sequence, configuration and schedule",
 		Gen:   genC14,
 		Hook:  hookC14,
-		Judge: judgeC14,
+		Judge: func(j *judgeCtx) { judgeC14(j); judgeConservation(j) },
+		Owns:  []string{"C03.b"}, // "never reports Running while unable to process jobs", with jobs in flight
 		NonTrivial: func(ep *Episode) bool {
 			n := 0
 			for _, c := range ep.W.rec.calls {
@@ -76,9 +77,14 @@ func genC14(r *simrt.Rand, tier string) (Cfg, *Program) {
 	p.Tasks = append(p.Tasks, ops)
 	// a releaser so that barrier calls on gated jobs can return
 	var rel []Op
+	paced := r.Chance(35) // gates opened one per quiescent point: jobs stay in flight across the calls
 	for _, s := range p.Subs {
 		if s.Gated {
-			rel = append(rel, Op{K: opYield}, Op{K: opOpenGate, A: s.N})
+			if paced {
+				rel = append(rel, Op{K: opSettle, A: 2}, Op{K: opOpenGate, A: s.N})
+			} else {
+				rel = append(rel, Op{K: opYield}, Op{K: opOpenGate, A: s.N})
+			}
 		}
 	}
 	if len(rel) > 0 {
